@@ -36,6 +36,7 @@ package tracing
 //@ ufunc c33Now(d) int
 //@ ufunc c33Name(d) int
 //@ ufunc c33MsgID(m) int
+//@ ufunc c33MsgRspTo(m) int
 
 // TRUSTED interface methods of the domain (any component / port / buffer): pure observers of the domain.
 //@ iface tracing.NamedHookable.NumHooks()
@@ -68,7 +69,7 @@ package tracing
 //@   trusted
 //@   pure
 //@   panics typeid(self) == 0
-//@   ensures result.ID == c33MsgID(self)
+//@   ensures result.ID == c33MsgID(self) && result.RspTo == c33MsgRspTo(self)
 
 // TRUSTED (interface; both implementations only bump their own counter, property C41).
 //@ iface timing.IDGenerator.Generate()
@@ -106,6 +107,8 @@ package tracing
 //@   ensures c33Hooks[ifaceval(domain)] == 0 ==> nothingAssigned() && c33NoHookLogged()
 //@   label C33.end.hook
 //@   ensures c33Hooks[ifaceval(domain)] != 0 ==> c33OneHook(domain, HookPosTaskEnd) && hastype(c33Item(old(c33HookN)), "TaskEnd") && as(c33Item(old(c33HookN)), "TaskEnd").ID == t.ID && as(c33Item(old(c33HookN)), "TaskEnd").Time == c33Now(domain)
+//@   label C32.kept.end
+//@   ensures c32LogKept()
 //@   label C33.end.noid
 //@   ensures c33Drawn == old(c33Drawn)
 //@   assigns c33HookN, c33HookDom, c33HookPos, c33HookTyp, c33HookVal
@@ -124,6 +127,8 @@ package tracing
 //@   ensures c33H(domain) != 0 ==> as(c33Last(), "TaskStart").ID == t.ID && as(c33Last(), "TaskStart").ParentID == t.ParentID && as(c33Last(), "TaskStart").Kind == t.Kind && as(c33Last(), "TaskStart").What == t.What && as(c33Last(), "TaskStart").Time == c33Now(domain)
 //@   label C33.start.location
 //@   ensures c33H(domain) != 0 ==> as(c33Last(), "TaskStart").Location == (old(t.Location) != "" ? old(t.Location) : (t.Kind == PipelineTaskKind ? t.What : ((t.Kind == ReqInTaskKind || t.Kind == ReqOutTaskKind) ? as(c33Last(), "TaskStart").Location : c33Name(domain))))
+//@   label C32.kept.start
+//@   ensures c32LogKept()
 //@   label C33.start.noid
 //@   ensures c33Drawn == old(c33Drawn) && c33Issued == old(c33Issued)
 //@   assigns c33HookN, c33HookDom, c33HookPos, c33HookTyp, c33HookVal
@@ -141,6 +146,8 @@ package tracing
 //@   ensures c33H(domain) != 0 && old(tag.ID) != 0 ==> as(c33Last(), "TaskTag").ID == old(tag.ID) && c33Drawn == old(c33Drawn) && c33Issued == old(c33Issued)
 //@   label C33.tag.id.drawn
 //@   ensures c33H(domain) != 0 && old(tag.ID) == 0 ==> c33Drawn == old(c33Drawn) + 1 && !old(c33Issued)[as(c33Last(), "TaskTag").ID] && c33Issued == upd(old(c33Issued), as(c33Last(), "TaskTag").ID, true)
+//@   label C32.kept.tag
+//@   ensures c32LogKept()
 //@   label C33.tag.idgen
 //@   ensures c33IDGenOK()
 //@   assigns c33HookN, c33HookDom, c33HookPos, c33HookTyp, c33HookVal, c33Drawn, c33Issued, key("G|github.com/sarchlab/akita/v5/timing.idGenerator|"), key("G|github.com/sarchlab/akita/v5/timing.idGeneratorInstantiated|"), key("O|timing.sequentialIDGenerator|nextID"), key("O|timing.parallelIDGenerator|nextID")
@@ -158,6 +165,8 @@ package tracing
 //@   ensures c33H(domain) != 0 && old(m.ID) != 0 ==> as(c33Last(), "Milestone").ID == old(m.ID) && c33Drawn == old(c33Drawn) && c33Issued == old(c33Issued)
 //@   label C33.ms.id.drawn
 //@   ensures c33H(domain) != 0 && old(m.ID) == 0 ==> c33Drawn == old(c33Drawn) + 1 && !old(c33Issued)[as(c33Last(), "Milestone").ID] && c33Issued == upd(old(c33Issued), as(c33Last(), "Milestone").ID, true)
+//@   label C32.kept.ms
+//@   ensures c32LogKept()
 //@   label C33.ms.idgen
 //@   ensures c33IDGenOK()
 //@   assigns c33HookN, c33HookDom, c33HookPos, c33HookTyp, c33HookVal, c33Drawn, c33Issued, key("G|github.com/sarchlab/akita/v5/timing.idGenerator|"), key("G|github.com/sarchlab/akita/v5/timing.idGeneratorInstantiated|"), key("O|timing.sequentialIDGenerator|nextID"), key("O|timing.parallelIDGenerator|nextID")
@@ -201,6 +210,9 @@ package tracing
 // attached (0 without, a generated ID with), so it must only ever flow into tracing calls.
 //@ fn MsgIDAtReceiver
 //@   property C33
+//@   requires c33IDGenOK()                    // (C32) the lookup may draw an ID: timing.GetIDGenerator()'s own precondition
+//@   label C32.idgen.MsgIDAtReceiver
+//@   ensures c33IDGenOK()
 //@   panics c33H(domain) != 0 && typeid(msg) == 0
 //@   label C33.recvid.nohook
 //@   ensures c33H(domain) == 0 ==> result == 0 && nothingAssigned() && c33Drawn == old(c33Drawn) && c33Issued == old(c33Issued) && c32Recv == old(c32Recv)
@@ -214,6 +226,9 @@ package tracing
 
 //@ fn MsgIDAtIncomingBuffer
 //@   property C33
+//@   requires c33IDGenOK()                    // (C32) the lookup may draw an ID: timing.GetIDGenerator()'s own precondition
+//@   label C32.idgen.MsgIDAtIncomingBuffer
+//@   ensures c33IDGenOK()
 //@   panics c33H(domain) != 0 && typeid(msg) == 0
 //@   label C33.inid.nohook
 //@   ensures c33H(domain) == 0 ==> result == 0 && nothingAssigned() && c33Drawn == old(c33Drawn) && c33Issued == old(c33Issued) && c32InBuf == old(c32InBuf)
